@@ -45,7 +45,9 @@ SelLists == {<<s>> : s \in SelTexts} \cup {<<"a", s>> : s \in SelTexts \ {"a"}} 
 NsSelTexts == {"p|a", "*|a", "|a", "p|*", "a:not(p|b)", ":not(*|b)", "a:not(|b)", "[p|b]", "a[p|b=v]", "p|a > .c"}
 OneDecl == <<D("left", <<C("DIMENSION", "1px")>>, "")>>
 Queries == {<<>>, <<"print">>, <<"print", "tv">>, <<"screen and (min-width: 10em)">>, <<"not print">>, <<"print", "only screen and (color) and (max-width: 20em)">>,
-            <<"print", "not print">>, <<"not all", "print">>, <<"only tv", "tv">>}      \* a bare not/only query is a query of its own, not the simple type
+            <<"print", "not print">>, <<"not all", "print">>, <<"only tv", "tv">>,
+            \* two queries of the SAME media type that differ in their features are two queries (only bare types are a set)
+            <<"screen and (min-width: 10em)", "screen and (max-width: 5em)">>, <<"tv and (color)", "tv">>, <<"all and (color)", "print">>}      \* a bare not/only query is a query of its own, not the simple type
 Imports == {[k |-> "import", href |-> "x.css", hreftype |-> h, queries |-> q, name |-> n] : h \in {"string", "uri"}, q \in Queries, n \in {"none", "nm"}}
 Namespaces == {[k |-> "namespace", prefix |-> p, uri |-> "u"] : p \in {"", "p"}}
 Margins == {<<>>, <<[name |-> "@top-left", body |-> OneDecl]>>, <<[name |-> "@top-left", body |-> OneDecl], [name |-> "@bottom-center", body |-> <<D("color", <<C("COLOR_VALUE", "red")>>, "")>>]>>}
